@@ -63,6 +63,7 @@ std::string RunCfg::brief() const {
   snprintf(b, sizeof b, " | sched=%s%s seed=%llu param=%u spurious=%u preempt=%u devs=%zu | in=%d/frag%d out=%d/frag%d", sim::policy_name(sched.policy), sched.explicit_ ? "(explicit)" : "",
            (unsigned long long)sched.seed, sched.param, sched.spurious, sched.preempt, sched.devs.size(), in_kind, in_frag.mode, out_kind, out_frag.mode);
   r += b;
+  if (sched.stall_k) { snprintf(b, sizeof b, " | stall %s#%u for %u decisions", sched.stall_task.c_str(), sched.stall_k, sched.stall_len); r += b; }
   if (in_granul || out_granul || copy_granul) { snprintf(b, sizeof b, " | granul in=%zu out=%zu copy=%zu", in_granul, out_granul, copy_granul); r += b; }
   for (auto &f : faults) { snprintf(b, sizeof b, " | fault %s#%d role%d errno=%d partial=%lld", sim::call_name(f.call), f.k, f.role, f.err, (long long)f.partial); r += b; }
   for (auto &e : sigs) { snprintf(b, sizeof b, " | signal %d at step %llu", e.sig, (unsigned long long)e.step); r += b; }
@@ -188,6 +189,7 @@ void Stats::absorb(const RunCfg &cfg, const sim::Result &r) {
   if (r.preemptions >= 1 && r.max_live_fibers >= 3) distinct("interleavings", r.ihash);
   for (auto h : r.states) distinct("sched_states", h);
   inc("preemptions", r.preemptions);
+  if (cfg.sched.stall_k && !cfg.sched.explicit_) { if (r.stalls_fired) inc("fault_fired.worker_stalled_holding_a_task." + cfg.sched.stall_task); else inc("fault_not_reached.worker_stall." + cfg.sched.stall_task); }
   if (r.inregion_points) { inc("inregion_points", r.inregion_points); inc("inregion_preemptions", r.inregion_preemptions); inc("inregion_runs"); }
   max("peak_heap", r.peak_heap);
 }
@@ -205,6 +207,14 @@ sim::Sched random_sched(Rng &rng, bool allow_spurious) {
   s.spurious = allow_spurious && rng.below(3) == 0 ? 20u << rng.below(5) : 0;
   if (!strcmp(sim::variant(), "preempt")) { static const uint32_t means[] = {300, 3000, 3000, 30000, 30000, 300000, 3000000}; s.preempt = means[rng.below(7)]; }
   return s;
+}
+// "slow node" fault: one worker is stalled while it holds the k-th task of a given kind (mode 0 compression, 1 decompression)
+void random_stall(Rng &rng, sim::Sched &s, int mode) {
+  static const char *ct[] = {"collect", "collect_seq", "transmit", "reorder", "collect", "collect_seq"};
+  static const char *dt[] = {"retrieve", "retrieve", "parse", "emit", "scan", "reorder", "retrieve", "emit"};
+  s.stall_task = mode == 0 ? ct[rng.below(6)] : dt[rng.below(8)];
+  s.stall_k = rng.below(2) ? 1 : 1 + (uint32_t)rng.below(rng.below(2) ? 4 : 40);
+  s.stall_len = 20u << rng.below(10);
 }
 sim::Frag random_frag(Rng &rng) {
   sim::Frag f;
@@ -247,6 +257,7 @@ std::string case_to_text(const Case &c, const Verdict &v, uint64_t hash) {
     put_frag(o, "infrag", r.in_frag); put_frag(o, "outfrag", r.out_frag); put_frag(o, "filefrag", r.file_frag);
     for (auto &f : r.faults) o << " fault " << f.call << " " << f.role << " " << f.k << " " << f.err << " " << f.partial << "\n";
     for (auto &e : r.sigs) o << " sig " << e.step << " " << e.sig << "\n";
+    if (r.sched.stall_k) o << " stall " << r.sched.stall_task << " " << r.sched.stall_k << " " << r.sched.stall_len << "\n";
     o << " sched " << r.sched.policy << " " << r.sched.seed << " " << r.sched.param << " " << r.sched.spurious << " " << (int)r.sched.explicit_ << " " << r.sched.preempt << "\n";
     if (!r.sched.devs.empty()) { o << " devs"; for (auto &d : r.sched.devs) o << " " << d.first << ":" << d.second; o << "\n"; }
     o << "endrun\n";
@@ -291,6 +302,7 @@ bool case_from_text(const std::string &text, Case *c, Verdict *v, uint64_t *hash
       else if (k == "filefrag") is >> cur->file_frag.mode >> cur->file_frag.param;
       else if (k == "fault") { sim::Fault f; is >> f.call >> f.role >> f.k >> f.err >> f.partial; cur->faults.push_back(f); }
       else if (k == "sig") { sim::SigEvent e; is >> e.step >> e.sig; cur->sigs.push_back(e); }
+      else if (k == "stall") is >> cur->sched.stall_task >> cur->sched.stall_k >> cur->sched.stall_len;
       else if (k == "sched") { int ex; is >> cur->sched.policy >> cur->sched.seed >> cur->sched.param >> cur->sched.spurious >> ex; cur->sched.explicit_ = ex; uint32_t pr = 0; if (is >> pr) cur->sched.preempt = pr; }
       else if (k == "devs") { std::string t; while (is >> t) { size_t c2 = t.find(':'); cur->sched.devs.push_back({(uint32_t)strtoul(t.c_str(), 0, 10), (uint32_t)strtoul(t.c_str() + c2 + 1, 0, 10)}); } }
     }
@@ -337,6 +349,7 @@ Case shrink(const Driver &d, const Case &c0, const Verdict &v0, int max_evals, i
     for (size_t k = best.runs[r].faults.size(); k-- > 0;) { Case cand = best; cand.runs[r].faults.erase(cand.runs[r].faults.begin() + k); try_case(cand); }
     for (size_t k = best.runs[r].sigs.size(); k-- > 0;) { Case cand = best; cand.runs[r].sigs.erase(cand.runs[r].sigs.begin() + k); try_case(cand); }
     if (best.runs[r].sched.spurious) { Case cand = best; cand.runs[r].sched.spurious = 0; if (cand.runs[r].sched.explicit_) cand.runs[r].sched.devs.clear(); try_case(cand); }
+    if (best.runs[r].sched.stall_k && !best.runs[r].sched.explicit_) { Case cand = best; cand.runs[r].sched.stall_k = 0; try_case(cand); }
     if (best.runs[r].sched.preempt && !best.runs[r].sched.explicit_) { Case cand = best; cand.runs[r].sched.preempt = 0; try_case(cand); }
     if (best.runs[r].in_granul || best.runs[r].out_granul || best.runs[r].copy_granul) { Case cand = best; cand.runs[r].in_granul = cand.runs[r].out_granul = cand.runs[r].copy_granul = 0; try_case(cand); }
     if (best.runs[r].in_frag.mode) { Case cand = best; cand.runs[r].in_frag = sim::Frag(); try_case(cand); }
